@@ -75,6 +75,77 @@ Proof.
     { unfold zlen. cbn [length]. apply Z.eqb_neq. lia. }
     rewrite L. cbn [py_first tl]. rewrite (fold_pieces (i1 :: ir) [first]). cbn [concat]. rewrite app_nil_r. reflexivity.
 Qed.
+Lemma fold_left_ext2 {A B} (f g : A -> B -> A) l : (forall a x, f a x = g a x) -> forall a, fold_left f l a = fold_left g l a.
+Proof. intro H. induction l as [|x r IH]; intro a; cbn [fold_left]; [reflexivity|]. rewrite H. apply IH. Qed.
+
+(* ---- unquote ------------------------------------------------------------------------------------------ *)
+Fixpoint alternating (rs : list (bool * text)) : bool :=
+  match rs with
+  | (a, _) :: (((b, _) :: _) as t) => negb (Bool.eqb a b) && alternating t
+  | _ => true
+  end.
+
+Lemma ascii_runs_alternating s : alternating (ascii_runs s) = true.
+Proof.
+  induction s as [|c r IH]; [reflexivity|]. cbn [ascii_runs].
+  destruct (ascii_runs r) as [|[a run] q] eqn:R; [reflexivity|].
+  destruct (Bool.eqb a (is_ascii c)) eqn:E.
+  - destruct q as [|[b run2] q2]; [reflexivity|]. exact IH.
+  - change (alternating ((is_ascii c, [c]) :: (a, run) :: q))
+      with (negb (Bool.eqb (is_ascii c) a) && alternating ((a, run) :: q)).
+    rewrite IH, andb_true_r. destruct a, (is_ascii c); try reflexivity; discriminate.
+Qed.
+
+Definition dec_run (x : bool * text) : text :=
+  let '(a, run) := x in if (a : bool) then utf8_dec (unquote_to_bytes T run) else run.
+
+Definition dec_pair (p : text * text) : text := utf8_dec (unquote_to_bytes T (fst p)) ++ snd p.
+
+Lemma bits_from_cons rs : exists b0 B, bits_from rs = b0 :: B.
+Proof. destruct rs as [|[[|] x] [|[f r] rest']]; cbn; eauto. Qed.
+
+Lemma bits_decode : forall n rs, (length rs <= n)%nat -> alternating rs = true ->
+  py_first (bits_from rs) ++ flat_map dec_pair (py_pairs (tl (bits_from rs))) = flat_map dec_run rs.
+Proof.
+  induction n as [|n IH]; intros rs L A.
+  { destruct rs; [reflexivity|cbn in L; lia]. }
+  destruct rs as [|[[|] x] rest]; [reflexivity| |].
+  - (* an ASCII run first *)
+    cbn [bits_from py_first tl app flat_map dec_run].
+    assert (A' : alternating rest = true).
+    { cbn [alternating] in A. destruct rest as [|[b y] t]; [reflexivity|]. apply andb_true_iff in A as [_ A]. exact A. }
+    destruct (bits_from_cons rest) as [b0 [B E]]. rewrite E. cbn [py_pairs flat_map dec_pair fst snd].
+    rewrite <- (IH rest) by (cbn in L; try lia; exact A'). rewrite E. cbn [py_first tl]. unfold dec_pair at 1. cbn [fst snd]. rewrite <- app_assoc. reflexivity.
+  - destruct rest as [|[f r] rest'].
+    + cbn. rewrite app_nil_r. reflexivity.
+    + assert (F : f = true).
+      { cbn [alternating] in A. apply andb_true_iff in A as [A _]. destruct f; [reflexivity|discriminate]. }
+      subst f.
+      assert (A' : alternating rest' = true).
+      { cbn [alternating] in A. apply andb_true_iff in A as [_ A]. destruct rest' as [|[b y] t]; [reflexivity|].
+        apply andb_true_iff in A as [_ A]. exact A. }
+      cbn [bits_from py_first tl flat_map dec_run].
+      destruct (bits_from_cons rest') as [b0 [B E]]. rewrite E. cbn [py_pairs flat_map dec_pair fst snd].
+      rewrite <- (IH rest') by (cbn in L; try lia; exact A'). rewrite E. cbn [py_first tl]. unfold dec_pair at 1. cbn [fst snd]. rewrite <- !app_assoc. reflexivity.
+Qed.
+
+Lemma fold_pairs ps : forall acc,
+  concat (fold_left (fun res '(a, b) => (res ++ [utf8_dec (unquote_to_bytes T a)]) ++ [b]) ps acc)
+  = concat acc ++ flat_map dec_pair ps.
+Proof.
+  induction ps as [|[a b] r IH]; intro acc; cbn [fold_left flat_map]; [rewrite app_nil_r; reflexivity|].
+  rewrite IH. rewrite !concat_app. unfold dec_pair at 2. cbn [concat fst snd]. rewrite !app_nil_r, <- !app_assoc. reflexivity.
+Qed.
+
+Theorem src_unquote_eq s : src_unquote T s = unquote T s.
+Proof.
+  unfold src_unquote, unquote. cbv zeta. destruct (memN 37 s) eqn:E; cbn [negb]; [|reflexivity].
+  rewrite (fold_left_ext2 _ (fun res '(a, b) => (res ++ [utf8_dec (unquote_to_bytes T a)]) ++ [b])).
+  - rewrite fold_pairs. cbn [concat]. rewrite app_nil_r. unfold py_pairs1, ascii_bits.
+    apply (bits_decode (length (ascii_runs s)) (ascii_runs s) (le_n _) (ascii_runs_alternating s)).
+  - intros res [a b]. rewrite src_unquote_to_bytes_eq. reflexivity.
+Qed.
+
 (* ---- parse_qsl ------------------------------------------------------------------------------- *)
 Lemma fold_filter_map {A B} (keep : A -> bool) (g : A -> B) l : forall acc,
   fold_left (fun ret x => if negb (keep x) then ret else ret ++ [g x]) l acc = acc ++ map g (filter keep l).
@@ -86,8 +157,7 @@ Qed.
 Lemma nonempty_match (p : text) : nonempty p = match p with [] => false | _ => true end.
 Proof. destruct p; reflexivity. Qed.
 
-Lemma fold_left_ext2 {A B} (f g : A -> B -> A) l : (forall a x, f a x = g a x) -> forall a, fold_left f l a = fold_left g l a.
-Proof. intro H. induction l as [|x r IH]; intro a; cbn [fold_left]; [reflexivity|]. rewrite H. apply IH. Qed.
+
 
 Theorem src_parse_qsl_eq qs : src_parse_qsl T qs = parse_qsl T qs.
 Proof.
